@@ -107,6 +107,7 @@ func (s *PFCPSession) MarkSessionQer(qers []qer) {
 		sessionIdx int
 		sessionMbr uint64
 		sessQerID  uint32
+		found      bool
 	)
 
 	if len(sessQerIDList) > 3 {
@@ -121,11 +122,16 @@ func (s *PFCPSession) MarkSessionQer(qers []qer) {
 			}
 
 			if qer.ulMbr >= sessionMbr {
+				found = true
 				sessionIdx = idx
 				sessQerID = qer.qerID
 				sessionMbr = qer.ulMbr
 			}
 		}
+	}
+
+	if !found {
+		return
 	}
 
 	logger.PfcpLog.Infoln("session QER found. QER ID:", sessQerID)
